@@ -213,6 +213,7 @@ def substitute_new_locals(raw, ref_names):
             # every use
             ok = True
             nuse = 0
+            good = []
             for b in raw["blocks"]:
                 items = list(enumerate(b["events"])) + ([(len(b["events"]), b["term"])] if "term" in b else [])
                 for i, ev in items:
@@ -226,13 +227,18 @@ def substitute_new_locals(raw, ref_names):
                         continue
                     if not _clean_between(blocks, preds, db, di, b["id"], i, roots, fields, loads):
                         ok = False
-            if not ok:
+                    else:
+                        good.append(ev)
+            if not ok and not good:
                 continue
-            cand = (name, db, di, dev, init)
+            # an initialiser that contains a call is not duplicated: substituted only into a single use
+            if nuse > 1 and any(n.get("k") == "call" for n in _nodes(init)):
+                continue
+            cand = (name, db, di, dev, init, ok, good)
             break
         if cand is None:
             break
-        name, db, di, dev, init = cand
+        name, db, di, dev, init, complete, good = cand
 
         def subst(node):
             if isinstance(node, list):
@@ -252,12 +258,17 @@ def substitute_new_locals(raw, ref_names):
                                 v[j] = copy.deepcopy(init)
                             else:
                                 subst(x)
-        blk = blocks[db]
-        blk["events"] = [e for e in blk["events"] if e is not dev]
-        # a declaration without initialiser of the same name disappears too
-        for b in raw["blocks"]:
-            b["events"] = [e for e in b["events"] if not (e.get("ev") == "decl" and e.get("name") == name)]
-        subst(raw["blocks"])
+        if complete:
+            blk = blocks[db]
+            blk["events"] = [e for e in blk["events"] if e is not dev]
+            # a declaration without initialiser of the same name disappears too
+            for b in raw["blocks"]:
+                b["events"] = [e for e in b["events"] if not (e.get("ev") == "decl" and e.get("name") == name)]
+            subst(raw["blocks"])
+        else:
+            # some uses cannot be shown to see the same value: substitute the others, keep the definition
+            for ev in good:
+                subst(ev)
         _fix_addr_members(raw["blocks"])
         done.append(name)
     return done
@@ -303,3 +314,89 @@ def _clean_between(blocks, preds, db, di, ub, ui, roots, fields, loads):
     if ub == db:                                         # use before the definition in the same block (loop): part before it
         return False
     return check(ub, 0, ui)
+
+
+def _dominators(raw):
+    ids = [b["id"] for b in raw["blocks"]]
+    blocks = {b["id"]: b for b in raw["blocks"]}
+    preds = {i: [] for i in ids}
+    for b in raw["blocks"]:
+        for s_ in b["succs"]:
+            if s_ is not None and s_ in preds:
+                preds[s_].append(b["id"])
+    entry = raw["entry"]
+    # reachable
+    reach, st = set(), [entry]
+    while st:
+        x = st.pop()
+        if x in reach or x not in blocks:
+            continue
+        reach.add(x)
+        st.extend(s_ for s_ in blocks[x]["succs"] if s_ is not None)
+    dom = {i: set(reach) for i in reach}
+    dom[entry] = {entry}
+    changed = True
+    while changed:
+        changed = False
+        for i in reach:
+            if i == entry:
+                continue
+            ps = [dom[p] for p in preds[i] if p in reach]
+            new = (set.intersection(*ps) if ps else set()) | {i}
+            if new != dom[i]:
+                dom[i] = new
+                changed = True
+    return dom, reach
+
+
+def canonicalise_decl_init(raw, ref_init):
+    """ref_init: {local name: declared with an initialiser in the reference}."""
+    blocks = {b["id"]: b for b in raw["blocks"]}
+    dom = None
+    for name, had_init in sorted(ref_init.items()):
+        decls = [(b, i, e) for b in raw["blocks"] for i, e in enumerate(b["events"]) if e.get("ev") == "decl" and e.get("name") == name]
+        if len(decls) != 1 or decls[0][2].get("static"):
+            continue
+        db, di, dev = decls[0]
+        if had_init and dev.get("init") is None:
+            # bare declaration now: the first plain assignment, if it dominates every other mention, becomes the declaration
+            mentions = []
+            for b in raw["blocks"]:
+                items = list(enumerate(b["events"])) + ([(len(b["events"]), b["term"])] if "term" in b else [])
+                for i, e in items:
+                    if e is dev:
+                        continue
+                    if _uses(e, name):
+                        mentions.append((b["id"], i, e))
+            assigns = [(bid, i, e) for (bid, i, e) in mentions if e.get("ev") == "assign" and e["e"].get("op") == "="
+                       and isinstance(_strip(e["e"].get("l")), dict) and _strip(e["e"]["l"]).get("k") == "var" and _strip(e["e"]["l"]).get("name") == name
+                       and not _uses(e["e"].get("r"), name)]
+            if not assigns:
+                continue
+            if dom is None:
+                dom, reach = _dominators(raw)
+            first = None
+            for (bid, i, e) in assigns:
+                if bid not in dom:
+                    continue
+                if all((b2 == bid and i2 > i) or (b2 != bid and b2 in dom and bid in dom[b2]) or b2 not in dom
+                       for (b2, i2, e2) in mentions if e2 is not e):
+                    first = (bid, i, e)
+                    break
+            if first is None:
+                continue
+            bid, i, e = first
+            # sub-expression events of the same statement (calls) precede it and are untouched
+            newd = {"line": e["line"], "ev": "decl", "name": name, "t": dev.get("t", ""), "ct": dev.get("ct", ""), "static": False,
+                    "init": e["e"]["r"]}
+            blocks[bid]["events"][i] = newd
+            blocks[db["id"]]["events"] = [x for x in blocks[db["id"]]["events"] if x is not dev]
+        elif not had_init and dev.get("init") is not None:
+            # declared with an initialiser now: split into a bare declaration and an assignment at the same place
+            init = dev.pop("init")
+            asg = {"line": dev["line"], "ev": "assign",
+                   "e": {"k": "assign", "op": "=", "l": {"k": "var", "name": name, "vk": "local", "ct": dev.get("ct", ""), "t": dev.get("t", "")},
+                         "r": init, "t": dev.get("t", "")}}
+            evs = blocks[db["id"]]["events"]
+            pos = [k for k, x in enumerate(evs) if x is dev][0]
+            evs.insert(pos + 1, asg)
